@@ -102,7 +102,20 @@ func (e *Engine) doCall(st *State, fr *Frame, call ssa.CallInstruction, val ssa.
 		}
 	}
 	// event
-	st.shiftSite(site)
+	if sub := st.shiftSiteSub(site); sub != nil {
+		// the arguments were evaluated before ageing: age them the same way
+		na := make([]*Term, len(ci.Args))
+		for i, a := range ci.Args {
+			na[i] = a.Map(sub)
+		}
+		ci.Args = na
+		if ci.FnTerm != nil {
+			ci.FnTerm = ci.FnTerm.Map(sub)
+		}
+		if ci.Recv != nil {
+			ci.Recv = ci.Recv.Map(sub)
+		}
+	}
 	e.SiteClass[site] = disp.Class
 	var res []*Term
 	if disp.Results != nil {
@@ -118,6 +131,7 @@ func (e *Engine) doCall(st *State, fr *Frame, call ssa.CallInstruction, val ssa.
 		Callee: ci.Static, Method: ci.Method, FnTerm: ci.FnTerm, Recv: ci.Recv, Args: ci.Args, Results: res}
 	st.note("event "+disp.Class, ev.Pos)
 	bind(res)
+	e.havocEscaped(st, ci, disp, site)
 	if !e.deliver(st, ev) {
 		return false, false
 	}
@@ -156,6 +170,54 @@ func (e *Engine) doCall(st *State, fr *Frame, call ssa.CallInstruction, val ssa.
 		e.problem("task", "task argument is not a known closure: "+t.Pretty(), e.Pos(call))
 	}
 	return true, false
+}
+
+// pureCallee lists library functions that do not write through their arguments
+// (or whose writes are modelled by the monitors: sync primitives).
+func pureCallee(name string) bool {
+	for _, p := range []string{"fmt.", "errors.", "(*sync.", "sync.", "time.", "(*time.", "(time.", "context.", "reflect.", "(reflect.", "(*reflect.", "strings.", "strconv.", "encoding/json.Marshal", "maps.Clone", "maps.Keys", "slices.Clone", "sort.", "math."} {
+		if strings.HasPrefix(name, p) {
+			return true
+		}
+	}
+	return false
+}
+
+// havocEscaped forgets the content of every local cell whose address is
+// handed to an opaque callee (user callback, unknown function value, library
+// function that may write through pointers).
+func (e *Engine) havocEscaped(st *State, ci *CallInfo, disp *Disposition, site string) {
+	if ci.Static != nil {
+		if pureCallee(ci.Static.String()) {
+			return
+		}
+		if ci.Static.Pkg == e.Cfg.Pkg || parentPkg(ci.Static) == e.Cfg.Pkg {
+			// summarised in-package function: its own verification covers its effects
+			return
+		}
+	}
+	seen := map[*Term]bool{}
+	var esc func(t *Term)
+	esc = func(t *Term) {
+		if t == nil {
+			return
+		}
+		t.Walk(func(n *Term) {
+			if n.K == KAlloc && !seen[n] {
+				seen[n] = true
+				if v, ok := st.mem[n]; ok {
+					esc(v)
+				}
+				st.mem[n] = Unknown("escaped|" + site)
+			}
+		})
+	}
+	for _, a := range ci.Args {
+		esc(a)
+	}
+	if ci.FnTerm != nil && ci.FnTerm.K == KClosure {
+		esc(ci.FnTerm)
+	}
 }
 
 func (e *Engine) pushFrame(st *State, caller *Frame, fn *ssa.Function, call ssa.CallInstruction, ci *CallInfo, site string, task bool) {
